@@ -128,4 +128,55 @@ theorem exists_enclosed_iff (l1 u1 l2 u2 : Option Int) (h1 : bLe l1 u1) (h2 : bL
     cases l1 <;> cases u1 <;> cases l2 <;> cases u2 <;>
       simp only [lbLe, ubLe, bLe, witnessC, and_true, true_and] at * <;> (try omega)
 
+/-! ### The order of cuts -/
+
+/-- The complete decision table of `cut.CompareTo`: the result is the sign of the lexicographic
+comparison of the keys. -/
+theorem compareTo_cases (a b : Cut) :
+    (a.compareTo b = -1 ∧ a.keyLt b) ∨ (a.compareTo b = 0 ∧ a = b) ∨ (a.compareTo b = 1 ∧ b.keyLt a) := by
+  cases a with
+  | belowAll => cases b <;> simp [Cut.compareTo, Cut.keyLt, Cut.cls]
+  | aboveAll => cases b <;> simp [Cut.compareTo, Cut.keyLt, Cut.cls]
+  | below s =>
+    cases b with
+    | belowAll => simp [Cut.compareTo, compareValueCuts, Cut.keyLt, Cut.cls]
+    | aboveAll => simp [Cut.compareTo, compareValueCuts, Cut.keyLt, Cut.cls]
+    | below t =>
+      have hst : s = t ↔ (s.secs = t.secs ∧ s.nanos = t.nanos) := by cases s; cases t; simp
+      rcases compareAscending_cases s t with ⟨h, hc⟩ | ⟨h, hc⟩ | ⟨h, hc⟩ <;>
+        simp only [Cut.compareTo, compareValueCuts, h, Cut.keyLt, Cut.cls, Cut.ksecs, Cut.knanos, Cut.side,
+          Cut.below.injEq, hst] <;> simp <;> omega
+    | above t =>
+      rcases compareAscending_cases s t with ⟨h, hc⟩ | ⟨h, hc⟩ | ⟨h, hc⟩ <;>
+        simp only [Cut.compareTo, compareValueCuts, h, Cut.keyLt, Cut.cls, Cut.ksecs, Cut.knanos, Cut.side] <;>
+        simp <;> omega
+  | above s =>
+    cases b with
+    | belowAll => simp [Cut.compareTo, compareValueCuts, Cut.keyLt, Cut.cls]
+    | aboveAll => simp [Cut.compareTo, compareValueCuts, Cut.keyLt, Cut.cls]
+    | above t =>
+      have hst : s = t ↔ (s.secs = t.secs ∧ s.nanos = t.nanos) := by cases s; cases t; simp
+      rcases compareAscending_cases s t with ⟨h, hc⟩ | ⟨h, hc⟩ | ⟨h, hc⟩ <;>
+        simp only [Cut.compareTo, compareValueCuts, h, Cut.keyLt, Cut.cls, Cut.ksecs, Cut.knanos, Cut.side,
+          Cut.above.injEq, hst] <;> simp <;> omega
+    | below t =>
+      rcases compareAscending_cases s t with ⟨h, hc⟩ | ⟨h, hc⟩ | ⟨h, hc⟩ <;>
+        simp only [Cut.compareTo, compareValueCuts, h, Cut.keyLt, Cut.cls, Cut.ksecs, Cut.knanos, Cut.side] <;>
+        simp <;> omega
+
+/-- The strict key order is irreflexive, asymmetric and transitive (plain integer reasoning). -/
+theorem keyLt_asymm (a b : Cut) : a.keyLt b → ¬ b.keyLt a := by
+  unfold Cut.keyLt; omega
+
+theorem keyLt_trans (a b c : Cut) : a.keyLt b → b.keyLt c → a.keyLt c := by
+  unfold Cut.keyLt; omega
+
+/-- For cuts at normalised timestamps the key order is the order of positions on the doubled timeline. -/
+theorem keyLt_pos (a b : Cut) (ha : a.Normal) (hb : b.Normal) :
+    a.keyLt b ↔ (a.cls < b.cls ∨ (a.cls = b.cls ∧ a.pos < b.pos)) := by
+  cases a <;> cases b <;>
+    simp only [Cut.keyLt, Cut.cls, Cut.ksecs, Cut.knanos, Cut.side, Cut.pos, Cut.Normal, Ts.Normal, Ts.toNs] at * <;>
+    (try simp only [Int.lt_irrefl, false_or, true_and, and_false, or_false]) <;>
+    omega
+
 end ScVerif.C18
